@@ -1459,6 +1459,13 @@ func (n *node) RouteApplicationStart(
 		return gen.ErrApplicationUnknown
 	}
 	app := v.(*application)
+	if mode == 0 {
+		// ApplicationStart without an explicit mode: the mode of the spec
+		mode = app.spec.Mode
+	}
+	if err := n.applicationStartDepends(name, app, options.ApplicationOptions); err != nil {
+		return err
+	}
 	return app.start(mode, options)
 }
 
